@@ -285,6 +285,13 @@ def run(ctx):
             seen[key] = seen.get(key, 0) + 1
             if seen[key] > 1:
                 continue
+            if row["op"] in RETRY_OPS:
+                ctx.violation(key, "%s %s [%s]: on the constructed tape whose draws take the branches %s of the standard's signing loop the library "
+                              "stopped at draw %s (rcSign=%s, its own verification returned %s): %s differs from what the loop of ref/Schemes.tla defines%s" % (
+                                  row["op"][:-5], row.get("name", ""), row.get("cls", ""), row.get("want"), row.get("drawsSign"), row.get("rcSign"), row.get("rcVerify"),
+                                  PART.get(part, str(part)), " (whole loop recomputed by TLC)" if row.get("copy") == "loop" else ""),
+                              {"line": brief(row), "part": part, "how": "re-run ./check C16; the line is decided by spec/trace/Trace_Schemes.tla (G12sRetryBad / B96RetryBad / DstuRetryBad)"})
+                continue
             alt = row["alts"][part - 11] if part >= 10 and row.get("op") != "gf2" and 0 < part - 10 <= len(row.get("alts", [])) else None
             ctx.violation(key, "%s %s [%s]: %s differs from the specification%s" % (
                 row.get("op"), row.get("name", ""), row.get("cls", ""), PART.get(part, "alteration %s" % (alt["a"] if alt else part)),
